@@ -165,7 +165,21 @@ class OpBlocks(e1.Op):
 def out_digest(value):
     if isinstance(value, yastn.Tensor):
         return hashlib.sha256(repr(core.tensor_canon(value, with_config=False)).encode()).hexdigest()[:20]
+    from .containers import parts, meta_of
+    m = meta_of(value)
+    if m is not None:       # container (MPS/MPO, PEPS, environment, stepped worker): metadata + every tensor it holds, bit by bit
+        return hashlib.sha256(repr([core.canon(m), [(k, core.tensor_canon(t, with_config=False)) for k, t in sorted(parts(value).items())]]).encode()).hexdigest()[:20]
+    if type(value).__name__ in ("EnvShadow", "PShadow"):
+        return "-"
     return core.digest(value)
+
+
+def step_digests(task, rec):
+    """Digests of everything an op produced: its outputs and, for the documented in-place API, the receiver afterwards."""
+    d = [out_digest(task.slots[s]) for s in rec["out"]]
+    if e1.OPS[rec["op"]].inplace and rec["in"]:
+        d.append(out_digest(task.slots[rec["in"][0]]))
+    return d
 
 
 def exc_digest(e):
@@ -184,7 +198,7 @@ def generate_cold(seed, spec, rng, nops, weights, seed_ops=("blocks",), on_op=No
         digs = {}
 
         def rec_dig(task_, rec):
-            digs[rec["id"]] = [out_digest(task_.slots[s]) for s in rec["out"]]
+            digs[rec["id"]] = step_digests(task_, rec)
             if on_op is not None:
                 on_op(task_, rec)
         prog = _generate(task, rng, w, nops, weights, rec_dig, seed_ops, spec.get("strict"))
